@@ -15,16 +15,22 @@ PROP = dict(
     note="oracle is 80-bit long double libm; tolerance 8 rounding units (8*eps*|ref|), multiplied by a stated condition number only where "
          "an argument has to be rounded before the operation (db2pow/db2mag exponent v/10, complex power p*Log z: 1+|p|(1+|arg z|), "
          "norm p=3 exponent 1/3); accumulations (n+8)*eps*sum|terms|; shapes and index contents exact",
-    rule="a case is one argument tuple of a scalar overload, or one array call (array length / shape tuple / (start,step) block of the integer "
+    rule="(main pass) a case is one argument tuple of a scalar overload, or one array call (array length / shape tuple / (start,step) block of the integer "
          "arange over all stops); array cases report the first failing element of each failure class. Non-trivial = argument not in {0, +-1} "
-         "(scalars), exponent not in {0,1} (power), array length >= 2 or shape parameters that change the shape (factor >= 2, delay != 0 ...)",
+         "(scalars), exponent not in {0,1} (power), array length >= 2 or shape parameters that change the shape (factor >= 2, delay != 0 ...). "
+         "(asan pass, ASan+UBSan build) a case is one array length n in 0..64, 255, 1000: every reduction, element-wise array overload and shape "
+         "function is called on exact-fit arrays of that length in a forked child; a sanitizer report (read / write past the end) is the "
+         "violation, values are judged in the main pass",
     bounds=dict(
         quick="real grid 24 values (+ per-function extras), complex grid 24x24 + 144 generic arguments + 18 near-cut points, exponents every "
               "k/2 in [-8,8] (real, int, scalar^array, array^array, array^scalar overloads), array lengths every 1..32, 100, 1000, the "
               "full grid and the BIG sizes 70000 and 200000 (every element-wise array overload and every reduction, long-double references); "
               "reductions 15 letters (index, constant, alternating, two-level, LCG, max/min ties at "
               "both ends, negative index, all +0, all -0, mixed signed zeros, a single non-zero element first / middle / last, extremes at positions n-3 / n-2 = beyond "
-              "index 65536 for the big sizes) x real/complex x lengths 1..32,100,1000,70000,200000 with norm p in {default,1,2,3,4,8}; upsample/downsample len<=12 x factor<=12 x phase<min; "
+              "index 65536 for the big sizes) x real/complex x lengths 1..32,100,1000,70000,200000 x 3 kinds of operand storage (exact fit; "
+              "spare capacity with stale 1e6 values behind the end = arr(std::move(vector)) of a shrunk vector; result of a mask selection from "
+              "a bigger array) with norm p in {default,1,2,3,4,8}; dot sweep: every n in 0..64, 65, 127, 129, 1001, 65537 x 2 letters x 3x3 storage "
+              "kinds of the two operands x real/complex; element-wise array checks rotate the three storage kinds with the array length; upsample/downsample len<=12 x factor<=12 x phase<min; "
               "linspace n=1..100 x 5 endpoint pairs; integer arange every (start,stop,step) in [-12,12]^3 and arange(stop) stop in [-12,12]; "
               "fractional arange 4 starts x 6 dyadic steps x count 0..20 (3 template instantiations); long fractional arange starts "
               "{0,-5,2.5,1e6} x non-dyadic steps {0.1,0.01,0.6,1/3,-0.7,1e-3} x counts {100,1000,10000,100000} (every element against start+k*step "
